@@ -5,6 +5,16 @@ import json
 ALL = ["C%02d" % i for i in range(1, 20)]
 # id -> (category, technique, text, note, design_ref)
 CHECKS = {
+ "C01": ("exploration",
+         "round-trip property testing (proptest): generated programs proved under all four standard option sets and verified against a statement rebuilt from the program",
+         "For generated programs (every instruction class, control flow, call/syscall/dyn, kernels, deep inputs and outputs) and each of Blake3-96, Blake3-128, RPO-96, RPO-128 with generated expected-cycle hints: prove() succeeds, its outputs equal execute()'s and the reference model's, verify(ProgramInfo(program hash, kernel), inputs, outputs, proof) returns a level >= the configured one, the proof carries the configured hash tag, and the proof serialised to bytes and read back is equal and verifies; plus the 2^k-1-cycle boundary found by C03. Sample sizes follow proving cost (quick 96/32/16/4).",
+         "Completeness only (C02 covers rejection). Option-independent failures are searched 40x more densely by C03, which evaluates the AIR directly on the same generator.",
+         "DESIGN.md sec. 3 C01"),
+ "C02": ("fault_enumeration",
+         "fault injection by generated alterations (proptest) of valid statements and serialised proofs, stratified by field and byte region, plus an exhaustive single-byte sweep of header and tail and an enumeration of out-of-set proving parameters",
+         "For valid (program, inputs, outputs, proof) tuples (Blake3-96/-128, RPO-96): one input/output element at any position incl. overflow, input count, overflow addresses changed/dropped/added, program-hash limb, kernel procedure added/removed/altered, another program's statement, relabelled hash tag, proof re-wrapped under another hash function, truncation/extension, bit flips and byte sets (header 40% / tail 10% / body 50%); every single-byte change from an 8-value set over the first 140 and last 70 bytes of a Blake3 and an RPO proof; ten honestly proved parameter sets outside the accepted ones. Oracle: decode or verify returns an error; acceptance or a panic is a violation; alterations that leave the zero-padded statement or the decoded proof unchanged are counted as trivial. Both build flavours.",
+         "Decides tamper-evidence against generated single alterations, not unforgeability. Known findings (listed): winterfell panics on malformed proof bytes (per dependency crate), FriProof::num_partitions unbound.",
+         "DESIGN.md sec. 3 C02"),
  "C03": ("exploration",
          "property-based testing (proptest) over generated programs with an executable AIR oracle: every transition constraint and boundary assertion evaluated on the honest trace",
          "Programs from the full generator (all instruction classes, control flow, procedures, call/syscall/dyn, kernels, memory, locals, advice) are executed honestly under generated expected-cycle hints; the main segment and the auxiliary segment built for 16 generated challenges (base, quadratic and cubic extension) are checked against every main/aux transition constraint on every non-exempt row and every boundary assertion of ProcessorAir instantiated with the caller's inputs and the reported outputs; the trace-length rule is recomputed (power of two, >= 64, accommodates cycles counted from the decoder columns, range table, chiplet rows, plus the random row) and the main segment is compared across hints. Held on everything explored.",
